@@ -534,7 +534,9 @@ def discovery_predicate(r):
             extra = [x or '.' for x in got if x not in want]
             return 'FindBundleRootDirectories(%s): %s%s' % (a or '.', ('misses ' + ', '.join(lost) + ' ') if lost else '',
                                                              ('has ' + ', '.join(extra) + ' which is not declared') if extra else '')
-    got, want = sorted(r['roots'] or []), sorted(spec_gpr(ws))
+    # as SETS: without any declaration GetPotentialRoots answers with the argument directories as given, so an argument
+    # named twice is listed twice (the same root; Check.C13Check.disc_agrees compares sets as well)
+    got, want = sorted(set(r['roots'] or [])), sorted(spec_gpr(ws))
     if got != want:
         return 'GetPotentialRoots(%s) = %s, declared: %s' % (', '.join(x or '.' for x in ws['args']), [x or '.' for x in got], [x or '.' for x in want])
     return None
